@@ -123,6 +123,13 @@ func init() {
 		}
 		return ex.b.Bool(ex.nameIn(args[0].(*Str), f.Elements))
 	})
+	reg(RepoModule+"/internal/resource.IsType", func(ex *Exec, fr *frame, pos token.Pos, args []value) value {
+		f, err := ex.P.Registry()
+		if err != nil {
+			panic(ex.unsupported("type registry facts unavailable: " + err.Error()))
+		}
+		return ex.b.Bool(ex.nameIn(args[0].(*Str), f.Resources))
+	})
 	reg(pf+"IsValidResourceType", func(ex *Exec, fr *frame, pos token.Pos, args []value) value {
 		f, err := ex.P.Registry()
 		if err != nil {
